@@ -15,3 +15,4 @@ import WowVerif.Props.C06
 import WowVerif.Props.C07
 import WowVerif.Props.C10
 import WowVerif.Props.C16
+import WowVerif.Props.C14
